@@ -22,7 +22,7 @@ fn c15_chunk_arith() {
 /// Within a chunk, the index apply_from uses (idx % 1024) is always inside the chunk, so
 /// BitmapChunk::set's range assertion cannot fire on that call path.
 #[kani::proof]
-#[kani::unwind(20)]
+#[kani::unwind(34)]
 fn c15_chunk_set_guard() {
 	let idx: u64 = kani::any();
 	let mut chunk = BitmapChunk::new();
